@@ -181,6 +181,7 @@ class U:
     def inline(self, *keys):
         for k in keys:
             self.interp.inline.add(k)
+            self.functions.setdefault(("inlined",) + tuple(k), self.interp.repo.module(k[0]).sha)
 
     def snapshot(self, v):
         if isinstance(v, SymTD):
@@ -424,6 +425,7 @@ def _concrete_pass(udef, repo, dim_names, seen, need, out):
             ops.UNROLL_LIMIT = old
         for pr in runs:
             if pr.error:
+                out.setdefault("conc_errors", []).append(f"{dv}: {pr.error[0]}: {pr.error[1][:300]}")
                 continue
             for ob in pr.ctx.obligations:
                 if ob.name not in need or ob.name in found:
@@ -452,3 +454,44 @@ def _concrete_pass(udef, repo, dim_names, seen, need, out):
         elif rec["status"] == "refuted":
             rec["replay"] = {"unit": udef.name, "obligation": n, "note": "solver model with symbolic dimensions only; no small instance found"}
         # unknown stays unknown
+
+
+# ----------------------------------------------------------------------------
+# lemma instances (schemas proved by induction in tvc/lemmas.py)
+# ----------------------------------------------------------------------------
+
+
+def _red_of(t):
+    if isinstance(t, SymTensor) and t.prov and t.prov[0] == "red":
+        return t.prov[1]
+    return None  # unrolled (concrete length): the solver sees the explicit sum, no lemma needed
+
+
+def sum_point_update(u, A, oA, Bt, oB, p):
+    """Instance of lemma sum.point: if the summands of A(oA) and Bt(oB) agree except at
+    index p then A - B = a(p) - b(p)."""
+    rA, rB = _red_of(A), _red_of(Bt)
+    if rA is None or rB is None:
+        return
+    oA = tuple(oA) if isinstance(oA, (tuple, list)) else (oA,)
+    oB = tuple(oB) if isinstance(oB, (tuple, list)) else (oB,)
+    n = zint(rA.ns[0])
+    k = z3.Int(f"kpu_{next(u.ctx.fresh_ids)}")
+    agree = z3.ForAll([k], z3.Implies(z3.And(k >= 0, k < n, k != zint(p)), rA.body(oA, (k,)) == rB.body(oB, (k,))))
+    concl = z3.If(z3.And(zint(p) >= 0, zint(p) < n),
+                  rA.app(oA) - rB.app(oB) == rA.body(oA, (zint(p),)) - rB.body(oB, (zint(p),)),
+                  rA.app(oA) == rB.app(oB))
+    u.ctx.assume(z3.Implies(z3.And(n == zint(rB.ns[0]), agree), concl))
+
+
+def sum_split_last(u, A, oA, Bt, oB):
+    """Instance of the definition S(n+1) = S(n) + f(n): A sums n+1 terms, Bt the first n of them."""
+    rA, rB = _red_of(A), _red_of(Bt)
+    if rA is None or rB is None:
+        return
+    oA = tuple(oA) if isinstance(oA, (tuple, list)) else (oA,)
+    oB = tuple(oB) if isinstance(oB, (tuple, list)) else (oB,)
+    nA, nB = zint(rA.ns[0]), zint(rB.ns[0])
+    k = z3.Int(f"ksl_{next(u.ctx.fresh_ids)}")
+    agree = z3.ForAll([k], z3.Implies(z3.And(k >= 0, k < nB), rA.body(oA, (k,)) == rB.body(oB, (k,))))
+    u.ctx.assume(z3.Implies(z3.And(nA == nB + 1, nB >= 0, agree), rA.app(oA) == rB.app(oB) + rA.body(oA, (nB,))))
